@@ -163,6 +163,9 @@ pub struct RunCfg {
     pub trailing_newline: bool,
     #[serde(default)]
     pub shell: String,
+    /// fault F8: RLIMIT_FSIZE (bytes) in force while this invocation runs
+    #[serde(default)]
+    pub fsize_limit: Option<u64>,
 }
 
 impl RunCfg {
@@ -177,6 +180,7 @@ impl RunCfg {
             k,
             trailing_newline: true,
             shell: String::new(),
+            fsize_limit: None,
         }
     }
 }
